@@ -5,17 +5,27 @@
 // exchange can be sequenced deterministically from one goroutine.
 //
 // Semantics:
+//
 //   - Write never blocks. It fails with io.ErrClosedPipe once the local end was closed (Close or
 //     CloseWrite) or the remote end was fully closed.
+//
 //   - Read blocks until data is available, the remote end closed its write side (buffered data is
 //     drained first, then io.EOF), the local end is closed (io.ErrClosedPipe), or the read
 //     deadline passes (os.ErrDeadlineExceeded, a net.Error with Timeout() == true).
 //     In non-blocking mode (SetNonBlocking) a Read on an empty open pipe returns ErrWouldBlock
 //     instead of blocking: a single-goroutine script turns a would-be deadlock into an error.
+//
 //   - Deadlines follow net.Conn: a zero time clears them; a deadline in the past fails at once.
+//
 //   - Hooks (optional, per end, replaceable at any time) are invoked once per Read/Write call
 //     without any lock held, so they may sleep (delay), return an error (fault), record the
 //     bytes (capture) or change them (mutation).
+//
+//   - Deadlock detection (SetDeadlockDetection, off by default) is for phases in which each end is driven by
+//     exactly ONE goroutine that both reads and writes (e.g. a handshake): if a Read would block while the
+//     other end is also blocked in Read and nothing is buffered in either direction, neither side can ever
+//     make progress, and both Reads fail with ErrDeadlock instead of hanging. The verdict is exact under
+//     that assumption (no clock involved).
 //
 // Both ends are safe for concurrent use by multiple goroutines.
 package memconn
@@ -32,6 +42,9 @@ import (
 // ErrWouldBlock is returned by Read in non-blocking mode when no byte is buffered and the peer
 // has not closed.
 var ErrWouldBlock = errors.New("memconn: read would block (no data buffered, peer still open)")
+
+// ErrDeadlock is returned by Read when deadlock detection is on and both ends wait for each other.
+var ErrDeadlock = errors.New("memconn: deadlock (both ends blocked in Read, nothing buffered)")
 
 // Hooks are optional per-call interposers of one end. Any field may be nil.
 type Hooks struct {
@@ -61,20 +74,27 @@ func (Addr) Network() string { return "memconn" }
 // String implements net.Addr.
 func (a Addr) String() string { return a.Name }
 
-// queue is one direction of the connection.
+// queue is one direction of the connection; all queues of a pair are guarded by pair.mu.
 type queue struct {
-	mu      sync.Mutex
 	cond    *sync.Cond
 	buf     []byte // unread bytes
 	off     int    // read offset into buf
 	wclosed bool   // writer closed its side: EOF after drain
 	rclosed bool   // reader closed its side: writes fail, reads fail
 	total   int64  // bytes ever queued
+	waiting int    // readers currently blocked on this queue
 }
 
-func newQueue() *queue {
+// pair is the state shared by the two ends.
+type pair struct {
+	mu         sync.Mutex
+	detect     bool // deadlock detection enabled
+	deadlocked bool // sticky until detection is switched off
+}
+
+func newQueue(p *pair) *queue {
 	q := &queue{}
-	q.cond = sync.NewCond(&q.mu)
+	q.cond = sync.NewCond(&p.mu)
 	return q
 }
 
@@ -89,6 +109,7 @@ var errTimeout net.Error = timeoutError{}
 
 // Conn is one end of the connection.
 type Conn struct {
+	p             *pair
 	rd, wr        *queue
 	local, remote Addr
 
@@ -107,9 +128,10 @@ func Pipe() (*Conn, *Conn) { return NamedPipe("memconn:a", "memconn:b") }
 
 // NamedPipe is Pipe with chosen address strings (peer code often logs or keys on RemoteAddr).
 func NamedPipe(a, b string) (*Conn, *Conn) {
-	ab, ba := newQueue(), newQueue()
-	ca := &Conn{rd: ba, wr: ab, local: Addr{a}, remote: Addr{b}}
-	cb := &Conn{rd: ab, wr: ba, local: Addr{b}, remote: Addr{a}}
+	p := &pair{}
+	ab, ba := newQueue(p), newQueue(p)
+	ca := &Conn{p: p, rd: ba, wr: ab, local: Addr{a}, remote: Addr{b}}
+	cb := &Conn{p: p, rd: ab, wr: ba, local: Addr{b}, remote: Addr{a}}
 	return ca, cb
 }
 
@@ -121,22 +143,35 @@ func (c *Conn) SetNonBlocking(on bool) {
 	c.mu.Lock()
 	c.nonblock = on
 	c.mu.Unlock()
-	c.rd.mu.Lock()
+	c.p.mu.Lock()
 	c.rd.cond.Broadcast()
-	c.rd.mu.Unlock()
+	c.p.mu.Unlock()
+}
+
+// SetDeadlockDetection switches deadlock detection for the PAIR on or off (see the package comment for the
+// one-goroutine-per-end assumption). Switching it off also clears a detected deadlock.
+func (c *Conn) SetDeadlockDetection(on bool) {
+	c.p.mu.Lock()
+	c.p.detect = on
+	if !on {
+		c.p.deadlocked = false
+	}
+	c.rd.cond.Broadcast()
+	c.wr.cond.Broadcast()
+	c.p.mu.Unlock()
 }
 
 // Buffered returns the number of bytes queued for this end and not yet read.
 func (c *Conn) Buffered() int {
-	c.rd.mu.Lock()
-	defer c.rd.mu.Unlock()
+	c.p.mu.Lock()
+	defer c.p.mu.Unlock()
 	return len(c.rd.buf) - c.rd.off
 }
 
 // BytesWritten returns the number of bytes this end has queued for its peer so far.
 func (c *Conn) BytesWritten() int64 {
-	c.wr.mu.Lock()
-	defer c.wr.mu.Unlock()
+	c.p.mu.Lock()
+	defer c.p.mu.Unlock()
 	return c.wr.total
 }
 
@@ -155,15 +190,15 @@ func (c *Conn) Read(p []byte) (int, error) {
 			limit = max
 		}
 	}
-	q := c.rd
-	q.mu.Lock()
+	q, pr := c.rd, c.p
+	pr.mu.Lock()
 	for {
 		if q.rclosed {
-			q.mu.Unlock()
+			pr.mu.Unlock()
 			return 0, io.ErrClosedPipe
 		}
 		if len(p) == 0 {
-			q.mu.Unlock()
+			pr.mu.Unlock()
 			return 0, nil
 		}
 		if avail := len(q.buf) - q.off; avail > 0 {
@@ -175,28 +210,41 @@ func (c *Conn) Read(p []byte) (int, error) {
 				q.buf = append(q.buf[:0], q.buf[q.off:]...)
 				q.off = 0
 			}
-			q.mu.Unlock()
+			pr.mu.Unlock()
 			if h.AfterRead != nil {
 				h.AfterRead(p[:n])
 			}
 			return n, nil
 		}
 		if q.wclosed {
-			q.mu.Unlock()
+			pr.mu.Unlock()
 			return 0, io.EOF
 		}
 		c.mu.Lock()
 		dl, nb := c.rdl, c.nonblock
 		c.mu.Unlock()
 		if nb {
-			q.mu.Unlock()
+			pr.mu.Unlock()
 			return 0, ErrWouldBlock
 		}
 		if !dl.IsZero() && !time.Now().Before(dl) {
-			q.mu.Unlock()
+			pr.mu.Unlock()
 			return 0, errTimeout
 		}
+		if pr.detect {
+			// the other end reads from c.wr; if a reader is parked there with nothing to read while this end has
+			// nothing to read either, the two single-goroutine ends wait for each other forever
+			other := c.wr
+			if pr.deadlocked || (other.waiting > 0 && len(other.buf)-other.off == 0) {
+				pr.deadlocked = true
+				other.cond.Broadcast()
+				pr.mu.Unlock()
+				return 0, ErrDeadlock
+			}
+		}
+		q.waiting++
 		q.cond.Wait()
+		q.waiting--
 	}
 }
 
@@ -215,9 +263,9 @@ func (c *Conn) Write(p []byte) (int, error) {
 		out, herr = h.BeforeWrite(append([]byte(nil), p...))
 	}
 	q := c.wr
-	q.mu.Lock()
+	c.p.mu.Lock()
 	if q.wclosed || q.rclosed {
-		q.mu.Unlock()
+		c.p.mu.Unlock()
 		return 0, io.ErrClosedPipe
 	}
 	if len(out) > 0 {
@@ -225,7 +273,7 @@ func (c *Conn) Write(p []byte) (int, error) {
 		q.total += int64(len(out))
 		q.cond.Broadcast()
 	}
-	q.mu.Unlock()
+	c.p.mu.Unlock()
 	if herr != nil {
 		n := len(out)
 		if n > len(p) {
@@ -239,10 +287,10 @@ func (c *Conn) Write(p []byte) (int, error) {
 // CloseWrite half-closes: the peer reads the buffered bytes and then io.EOF; this end can still read.
 func (c *Conn) CloseWrite() error {
 	q := c.wr
-	q.mu.Lock()
+	c.p.mu.Lock()
 	q.wclosed = true
 	q.cond.Broadcast()
-	q.mu.Unlock()
+	c.p.mu.Unlock()
 	return nil
 }
 
@@ -263,10 +311,10 @@ func (c *Conn) Close() error {
 	c.mu.Unlock()
 	c.CloseWrite()
 	q := c.rd
-	q.mu.Lock()
+	c.p.mu.Lock()
 	q.rclosed = true
 	q.cond.Broadcast()
-	q.mu.Unlock()
+	c.p.mu.Unlock()
 	return nil
 }
 
@@ -295,17 +343,17 @@ func (c *Conn) SetReadDeadline(t time.Time) error {
 		c.rtimer = nil
 	}
 	if !t.IsZero() {
-		q := c.rd
-		wake := func() { q.mu.Lock(); q.cond.Broadcast(); q.mu.Unlock() }
+		q, pr := c.rd, c.p
+		wake := func() { pr.mu.Lock(); q.cond.Broadcast(); pr.mu.Unlock() }
 		if d := time.Until(t); d > 0 {
 			c.rtimer = time.AfterFunc(d, wake)
 		}
 	}
 	c.mu.Unlock()
 	// wake blocked readers so that they re-read the deadline
-	c.rd.mu.Lock()
+	c.p.mu.Lock()
 	c.rd.cond.Broadcast()
-	c.rd.mu.Unlock()
+	c.p.mu.Unlock()
 	return nil
 }
 
